@@ -311,7 +311,7 @@ theorem task_refused_transition_retried_on_raw_input (env : Env) (fuel : Nat) (s
     (hr : rpcFunction ((fldStr state "Resource").getD []) = some fn)
     (hi : applyPath data ctx (pathArg state "InputPath") = .ok input)
     (hp : tmplOpt env input ctx (fld state "Parameters") = .ok params)
-    (hv : decodeReply (env.task fn params (bump st.counts (fn, params)).1) = .ok v)
+    (hv : taskReply env.maxData (env.task fn params (bump st.counts (fn, params)).1) = .ok v)
     (hs : tmplOpt env v ctx (fld state "ResultSelector") = .ok result)
     (hm : mergeResult data ctx result state = .ok out)
     (hE : isTrue (fld state "End") = false) (hN : fldStr state "Next" = some next)
@@ -341,11 +341,11 @@ example : decideError [r2] [{ errorEquals := [S "States.ALL"], next := some (S "
 example : ∃ c, decideError [r2] [{ errorEquals := [S "States.ALL"], next := some (S "N"), resultPath := none }] (S "X") 0
     = .caught c := ⟨_, rfl⟩
 
-/-! refused transitions, on a concrete Task state: limit 30 characters, a worker whose reply is 42
-characters long, Retry once on `States.DataLimitExceeded`, then Catch with `ResultPath: null` -/
+/-! refused transitions, on a concrete Task state: limit 50 characters, a worker whose reply is 42
+characters long (accepted) and makes the output 57 characters long (refused), Retry once on `States.DataLimitExceeded`, then Catch with `ResultPath: null` -/
 private def reply : Json := .str (S "0123456789012345678901234567890123456789")
 private def envS : Env :=
-  { tmpl := Lite.tmpl, choose := Lite.choose, maxData := 30, task := fun _ _ _ => reply }
+  { tmpl := Lite.tmpl, choose := Lite.choose, maxData := 50, task := fun _ _ _ => reply }
 private def tState : Json := .obj [
   (S "Type", .str (S "Task")), (S "Resource", .str (S "arn:aws:rpcmessage:local::function:f")),
   (S "ResultPath", .str (S "$.r")), (S "Next", .str (S "N")),
